@@ -71,7 +71,7 @@ NOT_APPLICABLE = {
     'C08': 'JSON conversion is serde derive expansions and codecs generic over Serializer/Deserializer driven through serde_json::Value; neither Verus nor Kani can ingest that code and no function-level contract states JSON equality without modelling serde.',
     'C15': 'quantifies over the contents of 195 shipped scenario data files and draws of an external random generator pushed through the serde pipeline: a statement about data and an external RNG, not about a function contract.',
 }
-PENDING_REASON = 'not yet claimed: no verification unit serves this property at this commit (contract-based deductive verification is applicable in part, see DESIGN.md; work in progress)'
+PENDING_REASON = 'not claimed at this commit: no verification unit serves this property at this commit (contract-based deductive verification is applicable in part, see DESIGN.md; work in progress)'
 
 
 def main():
